@@ -564,5 +564,46 @@ def rule_i10(repo):
     return res
 
 
+def rule_i11(repo):
+    """Substitution is simultaneous: the type instantiation belongs to the *pattern*, the instances are inserted as they are.
+    `Term.subst` therefore instantiates the types of the pattern first and hands the result to the replacement worker; nothing
+    instantiates types in a term the worker has produced - the instances in it would be instantiated a second time
+    (?x :: ?'a with ?'a := ?'a list and ?x := c :: ?'a list gives c :: ?'a list list).  Decided on the flow of values in the body:
+    the receiver of every `subst_type` call does not derive, through the assignments that can reach it, from a call of the worker."""
+    res = RuleResult('C03.I11', 'types are instantiated in the pattern, never in a term the replacement worker has produced', floor=1)
+    f = repo.func('kernel/term.py', 'Term.subst')
+    workers = set(f.nested)
+    need(workers, 'Term.subst: the nested replacement worker not found')
+    from ..astutil import walk_no_nested
+    cfg = cfg_of(f.node)
+    sites = [c for c in walk_no_nested(f.node) if isinstance(c, ast.Call) and call_attr(c) == 'subst_type']
+    need(sites, 'Term.subst: no call of subst_type in the body (where is the type instantiation applied?)')
+
+    def from_worker(e, node, seen):
+        """an offending sub-expression of e: a call of the worker, or a local whose reaching assignment has one"""
+        for x in ast.walk(e):
+            if isinstance(x, ast.Call) and isinstance(x.func, ast.Name) and x.func.id in workers:
+                return x
+            if isinstance(x, ast.Name) and isinstance(x.ctx, ast.Load):
+                for d in cfg.reaching_assignments(node, x.id):
+                    if (d.id, x.id) in seen or not isinstance(d.ast, ast.Assign):
+                        continue
+                    seen.add((d.id, x.id))
+                    r = from_worker(d.ast.value, d, seen)
+                    if r is not None:
+                        return r
+        return None
+
+    for i, c in enumerate(sites):
+        node = cfg.node_for(c)
+        bad = from_worker(c.func.value, node, set()) if node is not None else None
+        res.add('kernel/term.py :: Term.subst :: subst_type#%d' % (i + 1), bad is None,
+                'applied to `%s`, which no call of the worker has produced' % src(c.func.value, 40) if bad is None else
+                'line %d instantiates types in `%s`, which comes from `%s` (line %d): the instances inserted there are type-instantiated a second time, '
+                'and ?x :: ?\'a with ?\'a := ?\'a list, ?x := c :: ?\'a list gives c :: ?\'a list list' % (c.lineno, src(c.func.value, 40), src(bad, 40), bad.lineno),
+                'kernel/term.py:%d' % c.lineno)
+    return res
+
+
 def rules(repo):
-    return [rule_i1(repo), rule_i2(repo), rule_i3(repo), rule_i4(repo), rule_i5(repo), rule_i6(repo), rule_i7(repo), rule_i8(repo), rule_i9(repo), rule_i10(repo)]
+    return [rule_i1(repo), rule_i2(repo), rule_i3(repo), rule_i4(repo), rule_i5(repo), rule_i6(repo), rule_i7(repo), rule_i8(repo), rule_i9(repo), rule_i10(repo), rule_i11(repo)]
